@@ -72,7 +72,7 @@ PROPS["C05"] = {
     "runs_per_proc": 40,
     "technique": "deterministic simulation with crash injection: a process kill at an enumerated file-system effect boundary, reopen on the surviving directory, reference-model oracle on the recovered log, then the workload continues",
     "level_text": "for each sampled program a fault-free run counts the file-system effect boundaries of every operation (log write, index mmap copy, file create/truncate, rename, remove, checkpoint replace); the thorough tier crashes at every one of them (quick: 6 sampled per program), reopens and judges the recovered log against the model, then continues the program on it",
-    "level_note": "process-crash model (the kernel keeps every completed write; no power loss, no torn writes); a crash inside natefinch/atomic.WriteFile is not taken (the dependency is not instrumented); programs are sampled",
+    "level_note": "process-crash model (the kernel keeps every completed write; no power loss, no torn writes); natefinch/atomic.WriteFile is replaced by a copy of its statements with crash points between temp-file creation, write and rename; programs are sampled",
     "rule": "one evaluation = one (program, crash point) execution; distinct = distinct event-log hash; non-trivial = the crash fired, the directory was reopened and the recovered log was judged with >=5 oracle evaluations on a non-empty history",
     "assumptions": COMMON_ASSUME + ["process-crash model as stated in the property", "for an interrupted clean only the newest segment's records are required to survive (C08/C09 judge cleaning precisely)"],
 }
@@ -82,7 +82,7 @@ PROPS["C03"] = {
     "level": "exploration",
     "budget": {"quick": 30, "thorough": 600},
     "runs_per_proc": 150,
-    "technique": "deterministic simulation: appender, HW advancer, read-only toggler and committed readers as concurrently scheduled tasks with seeded preemption at every lock and wake-up; online invariants after every step plus bounded-liveness check at quiescence",
+    "technique": "deterministic simulation: appender, two HW movers (a third of the moves go to the log end, some carry stale lower values), read-only toggler and committed readers as concurrently scheduled tasks with seeded preemption at every lock and wake-up; online invariants after every step plus bounded-liveness check at quiescence",
     "level_text": "seeded exploration of interleavings of the real commitlog code: HW monotonicity checked after every scheduling step, every delivery checked against the HW and the model at the moment it is handed out, and after the last append every reader must have received exactly [start..HW] within 120 simulated seconds (a lost wake-up shows up as a stuck reader)",
     "level_note": "preemption points are lock acquisitions, channel operations, selects, timers; memory races outside those are not explored",
     "rule": "programs of <=36 (thorough <=66) operations split over four concurrent tasks; distinct = distinct event-log hash; non-trivial = at least one committed reader received >=3 messages and at least one preemption changed the running task",
@@ -180,7 +180,7 @@ PROPS["C11"] = {
     "level": "exploration",
     "budget": {"quick": 45, "thorough": 600},
     "runs_per_proc": 30,
-    "technique": "deterministic simulation of one real server with the internal cursors stream: 2-6 client tasks issue SetCursor/FetchCursor on hot keys (unique values), flood the cursor cache, sleep across auto-pause and cleaner ticks on the fake clock, restart or crash the server; per-key histories checked with porcupine (nondeterministic register: a failed set may or may not have been stored)",
+    "technique": "deterministic simulation of one real server with the internal cursors stream: 2-6 client tasks issue SetCursor/FetchCursor on hot keys (unique, non-monotone values), flood the cursor cache, sleep across auto-pause and cleaner ticks on the fake clock, restart the server, crash it, or let it die inside a commit-log file operation; 30 of the flood's own (cold) cursors are fetched back; per-key histories checked with porcupine (nondeterministic register: a failed set may or may not have been stored)",
     "level_text": "seeded exploration of interleavings between cursor writes, cache fills after a miss, compaction/segment rolls of the cursors partition, auto-pause/resume and server restarts; every key's history must be linearizable against a register with initial value -1",
     "level_note": "single server (a leader change of the cursors partition is exercised as restart of the only replica); histories are cut at 200 operations per key; an inconclusive porcupine run is counted, not reported",
     "rule": "programs of 8-48 (thorough -108) operations over 4 hot keys; distinct = distinct event-log hash; non-trivial = >=2 sets and >=2 successful fetches",
@@ -238,7 +238,7 @@ PROPS["C04"] = {
     "level": "exploration",
     "budget": {"quick": 60, "thorough": 900},
     "runs_per_proc": 25,
-    "technique": "deterministic simulation of a 2-3 server cluster (real partition leader/follower/replicator/commit loops) with a publisher client sending enveloped messages of mixed ack policies, sizes and batch boundaries straight to the stream subject; faults: server crash/restart, one- and two-way network cuts, message loss/delay, stalls, time passing across the lag/leader-timeout timers; every acknowledgement is examined by a bus tap at the instant it leaves the leader",
+    "technique": "deterministic simulation of a 2-3 server cluster (real partition leader/follower/replicator/commit loops) with a publisher client sending enveloped messages of mixed ack policies, sizes and batch boundaries straight to the stream subject; faults: server crash/restart, servers dying inside a commit-log file operation, one- and two-way network cuts, message loss/delay, stalls, time passing across the lag/leader-timeout timers; every acknowledgement is examined by a bus tap at the instant it leaves the leader",
     "level_text": "seeded exploration of interleavings of publishes, follower fetches, ISR shrink/expand and commit checks under faults; oracle at the ack instant: ALL => every member of the leader's in-sync set holds exactly that message at that offset and the set has the minimum size; LEADER => the leader holds it; NONE => never positively acked; offset/correlation id/policy belong to the message; oversized or wrong-expected-offset messages are nacked and stored by nobody",
     "level_note": "in-sync members that are down at the ack instant are not inspected; negative acks for NONE-policy messages are not judged (the statement leaves it open)",
     "rule": "programs of 6-29 (thorough -75) operations on 2-3 servers, RF 1-3, min ISR 1-RF, batch sizes 1-1024; distinct = distinct event-log hash; non-trivial = >=3 messages published and >=1 ack observed",
@@ -250,10 +250,10 @@ PROPS["C02"] = {
     "level": "exploration",
     "budget": {"quick": 90, "thorough": 900},
     "runs_per_proc": 25,
-    "technique": "deterministic simulation of a 2-3 server cluster (real leader/follower/replicator/commit loops, real epoch-based log reconciliation, real controller failover logic over the Raft stub) with a publisher client; faults: leader and follower crash/restart (repeated), one- and two-way network cuts, message loss/delay, stalls, time passing across the lag/leader-timeout timers; 40% of the programs are generated failover chains (lagging follower, isolated leader with an uncommitted tail, leader crash, election, catch-up across the epoch boundary, re-election, deposed leaders rejoining); replica logs are compared offset by offset at every operation boundary and after a convergence period",
+    "technique": "deterministic simulation of a 2-5 server cluster (real leader/follower/replicator/commit loops, real epoch-based log reconciliation, real controller failover logic over the Raft stub) with a publisher client; faults: leader and follower crash/restart (repeated), one- and two-way network cuts, message loss/delay, stalled (slow) leaders and followers, servers dying inside a commit-log file operation (log write, index write, rename, checkpoint replace) and again right after a restart, time passing across the lag/leader-timeout timers; 40% of the programs are generated failover chains (lagging follower, isolated leader with an uncommitted tail, leader crash, election, catch-up across the epoch boundary, re-election, deposed leaders rejoining); replica logs are compared offset by offset at every operation boundary and after a convergence period; further generated scenario families: two-replica leadership ping-pong (partition, crash or stall of the leader, empty epochs, uncommitted tails, publishes appended one by one), five-server chains in which a replica misses a whole epoch",
     "level_text": "seeded exploration of interleavings of publish, follower fetch, commit, leader crash, election from the in-sync set, follower restart with epoch-based truncation and ISR shrink/expand, including repeated failovers; oracle: pairwise equality of replicas at every offset both hold at or below both high watermarks; every ALL-acknowledged message is on every later leader at its offset; after convergence on every in-sync replica",
     "level_note": "acks from a server that no longer leads at the ack instant are not counted as commits; Raft is the ordered-commit stub, so metadata-level split brain is not explored",
-    "rule": "programs of 6-29 (thorough -75) operations on 2-3 servers; distinct = distinct event-log hash; non-trivial = >=3 messages published and >=1 committed",
+    "rule": "programs of 6-29 (thorough -75) operations on 2-5 servers; distinct = distinct event-log hash; non-trivial = >=3 messages published and >=1 committed",
     "assumptions": H3C_ASSUME,
 }
 
@@ -262,10 +262,10 @@ PROPS["C07"] = {
     "level": "exploration",
     "budget": {"quick": 45, "thorough": 600},
     "runs_per_proc": 40,
-    "technique": "deterministic simulation of one real server as controller of a partition whose 2-5 replicas exist only in the metadata: the harness issues leader reports from in-sync followers, out-of-sync replicas, the leader itself and strangers, ISR shrinks/expansions with current or stale (leader, epoch) pairs, sleeps placed just before/after the failover timeout on the fake clock, and controller leadership losses; after every operation the partition state is judged against a reference of the statement's rules",
-    "level_text": "seeded exploration of report/ISR-change histories around the witness timer; oracle: leader in ISR, ISR subset of replicas, epochs never decrease, one leader per leader epoch, a leader change only as the result of a report, to a member of the in-sync set other than the reported leader, with a new epoch, and only when more than half of the in-sync followers reported that (leader, epoch) in a chain of reports each within the timeout of the next; requests naming a stale leader or epoch are refused and change nothing",
+    "technique": "deterministic simulation of one real server as controller of a partition whose 2-5 replicas exist only in the metadata: the harness issues leader reports from in-sync followers, out-of-sync replicas, the leader itself and strangers, ISR shrinks/expansions with current or stale (leader, epoch) pairs, sleeps placed just before/after the failover timeout on the fake clock, and controller leadership losses; after every operation the partition state is judged against a reference of the statement's rules; Raft proposals that fail (nothing committed); 12% of the runs are cluster-mode runs: the C02 failover chains on real replicas, with the partition metadata of every server read under its lock at every operation boundary",
+    "level_text": "seeded exploration of report/ISR-change histories around the witness timer; oracle: leader in ISR, ISR subset of replicas, epochs never decrease, one leader per leader epoch, a leader change only as the result of a report, to a member of the in-sync set other than the reported leader, with a new epoch, and only when more than half of the in-sync followers reported that (leader, epoch) in a chain of reports each within the timeout of the next; requests naming a stale leader or epoch are refused and change nothing; cluster mode: leader in ISR, ISR subset of replicas, epochs never decrease on a server, one leader per leader epoch across servers",
     "level_note": "the witness window is judged by the implementation's documented sliding rule (each report re-arms the timer); reports made before a controller leadership loss do not count afterwards",
-    "rule": "programs of 8-37 (thorough -97) operations; distinct = distinct event-log hash; non-trivial = >=2 accepted reports",
+    "rule": "programs of 8-37 (thorough -97) operations; distinct = distinct event-log hash; non-trivial = >=2 accepted reports; cluster-mode runs: non-trivial = >=6 metadata reads and >=2 leader epochs",
     "assumptions": H3_ASSUME,
 }
 
@@ -274,7 +274,7 @@ PROPS["C18"] = {
     "level": "exploration",
     "budget": {"quick": 45, "thorough": 600},
     "runs_per_proc": 30,
-    "technique": "deterministic simulation of one real server with the activity stream enabled: stream and consumer-group operations through the real API, activity publish failures (deliveries on the activity subject dropped, so publishes time out and the dispatcher backs off), simulated time across the back-off schedule, Raft snapshots with log truncation, controller leadership loss, clean stop/crash and restart; after a fault-free convergence period the __activity log is compared with the committed Raft log",
+    "technique": "deterministic simulation of one real server with the activity stream enabled: stream and consumer-group operations through the real API, activity publish failures (deliveries on the activity subject dropped, so publishes time out and the dispatcher backs off), simulated time across the back-off schedule, Raft snapshots with log truncation, controller leadership loss, clean stop/crash/death inside a commit-log file operation and restart, the cursors stream configured or not; after a fault-free convergence period the __activity log is compared with the committed Raft log",
     "level_text": "seeded exploration of operation/fault histories; oracle: every committed stream/group operation has an event whose id is its Raft index and whose content matches it, first appearances are in commit order, redeliveries of an id are byte-identical, no event exists for an entry that has none; bounded liveness: 90 simulated seconds after the last fault the dispatcher has caught up",
     "level_note": "single server (controller change = leadership loss and re-election of the same server, or restart); the activity partition is led by the same server",
     "rule": "programs of 6-29 (thorough -75) operations; distinct = distinct event-log hash; non-trivial = >=3 API operations",
